@@ -276,10 +276,24 @@ struct MergeCase {
     /// are indistinguishable objects (the same radial delivered twice); the union still has
     /// len(first) + len(second) members
     identical: bool,
+    /// how the two sweeps reach `merge`: 0 = straight from `Sweep::new`, 1 = through a serde
+    /// round trip (serialize, deserialize), 2 = cloned. Equal values must merge equally.
+    ctor: u8,
+}
+
+fn via(ctor: u8, s: Sweep) -> Sweep {
+    match ctor {
+        1 => match serde_json::to_string(&s).ok().and_then(|t| serde_json::from_str::<Sweep>(&t).ok()) {
+            Some(d) => d,
+            None => s,
+        },
+        2 => s.clone(),
+        _ => s,
+    }
 }
 
 fn check_merge(ctx: &Ctx, c: &MergeCase) -> &'static str {
-    let wit = || json!({"op": "merge", "a": c.a, "b": c.b, "ea": c.ea, "eb": c.eb, "spare": [c.spare.0, c.spare.1], "identical": c.identical});
+    let wit = || json!({"op": "merge", "a": c.a, "b": c.b, "ea": c.ea, "eb": c.eb, "spare": [c.spare.0, c.spare.1], "identical": c.identical, "ctor": c.ctor});
     let mut ra: Vec<Radial> = Vec::with_capacity(c.a.len() + c.spare.0);
     ra.extend(c.a.iter().enumerate().map(|(i, az)| radial(if c.identical { 7 } else { 100 + i as i64 }, *az, c.ea)));
     let mut rb: Vec<Radial> = Vec::with_capacity(c.b.len() + c.spare.1);
@@ -290,7 +304,7 @@ fn check_merge(ctx: &Ctx, c: &MergeCase) -> &'static str {
         .map(|r| (r.azimuth_number(), r.collection_timestamp()))
         .collect();
     all.sort_by_key(|x| x.0); // stable
-    let (sa, sb) = (Sweep::new(c.ea, ra), Sweep::new(c.eb, rb));
+    let (sa, sb) = (via(c.ctor, Sweep::new(c.ea, ra)), via(c.ctor, Sweep::new(c.eb, rb)));
     match guarded(move || sa.merge(sb)) {
         Caught::Panic(p) => {
             ctx.fail(&format!("merge:panic:{}", panic_class(&p)), || p.clone(), wit);
@@ -439,7 +453,16 @@ pub fn run(ctx: &'static Ctx) -> (&'static str, Value, Vec<&'static str>) {
             let b = &ws[(idx / 2) / n];
             let mut o = "ok";
             for (spare, identical) in [((0usize, 0usize), false), ((0, a.len() + 2), false), ((b.len() + 2, 0), false), ((64, 64), false), ((0, 0), true), ((3, 0), true)] {
-                let c = MergeCase { a: a.clone(), b: b.clone(), ea: 4, eb: if same { 4 } else { 5 }, spare, identical };
+                let c = MergeCase { a: a.clone(), b: b.clone(), ea: 4, eb: if same { 4 } else { 5 }, spare, identical, ctor: 0 };
+                if spare == (0, 0) {
+                    for ctor in [1u8, 2] {
+                        let r2 = check_merge(ctx, &MergeCase { ctor, ..c.clone() });
+                        if r2 != "ok" && r2 != "err" {
+                            o = r2;
+                        }
+                        st.eval();
+                    }
+                }
                 let r = check_merge(ctx, &c);
                 if r != "ok" || (spare == (0, 0) && !identical) {
                     o = r;
@@ -464,7 +487,7 @@ pub fn run(ctx: &'static Ctx) -> (&'static str, Value, Vec<&'static str>) {
         ((1..=360).rev().collect::<Vec<u16>>(), (1..=360).collect::<Vec<u16>>()),
     ] {
         for same in [true, false] {
-            let c = MergeCase { a: a.clone(), b: b.clone(), ea: 9, eb: if same { 9 } else { 0 }, spare: (3, b.len() + a.len()), identical: false };
+            let c = MergeCase { a: a.clone(), b: b.clone(), ea: 9, eb: if same { 9 } else { 0 }, spare: (3, b.len() + a.len()), identical: false, ctor: 1 };
             let o = check_merge(ctx, &c);
             stats.eval();
             stats.outcome(&format!("merge_{o}"));
@@ -485,10 +508,10 @@ pub fn run(ctx: &'static Ctx) -> (&'static str, Value, Vec<&'static str>) {
         |i| format!("word#{i}(len {})", halpha[i].len()),
     );
     let mcases: Vec<MergeCase> = vec![
-        MergeCase { a: vec![3, 1, 2], b: vec![2, 2], ea: 1, eb: 1, spare: (0, 8), identical: false },
-        MergeCase { a: (1..=40).rev().collect(), b: (1..=40).collect(), ea: 2, eb: 2, spare: (50, 0), identical: true },
-        MergeCase { a: vec![1], b: vec![1], ea: 1, eb: 2, spare: (0, 0), identical: false },
-        MergeCase { a: vec![], b: vec![7, 7, 7], ea: 0, eb: 0, spare: (4, 4), identical: true },
+        MergeCase { a: vec![3, 1, 2], b: vec![2, 2], ea: 1, eb: 1, spare: (0, 8), identical: false, ctor: 0 },
+        MergeCase { a: (1..=40).rev().collect(), b: (1..=40).collect(), ea: 2, eb: 2, spare: (50, 0), identical: true, ctor: 0 },
+        MergeCase { a: vec![1], b: vec![1], ea: 1, eb: 2, spare: (0, 0), identical: false, ctor: 0 },
+        MergeCase { a: vec![], b: vec![7, 7, 7], ea: 0, eb: 0, spare: (4, 4), identical: true, ctor: 0 },
     ];
     let sm = history_check(
         ctx,
@@ -533,7 +556,7 @@ pub fn replay(ctx: &'static Ctx, case: &Value) {
         }
         Some("merge") => {
             let g = |k: &str| -> Vec<u16> { case[k].as_array().map(|a| a.iter().map(|x| x.as_u64().unwrap_or(0) as u16).collect()).unwrap_or_default() };
-            let c = MergeCase { a: g("a"), b: g("b"), ea: case["ea"].as_u64().unwrap_or(0) as u8, eb: case["eb"].as_u64().unwrap_or(0) as u8, spare: (case["spare"][0].as_u64().unwrap_or(0) as usize, case["spare"][1].as_u64().unwrap_or(0) as usize), identical: case["identical"].as_bool().unwrap_or(false) };
+            let c = MergeCase { a: g("a"), b: g("b"), ea: case["ea"].as_u64().unwrap_or(0) as u8, eb: case["eb"].as_u64().unwrap_or(0) as u8, spare: (case["spare"][0].as_u64().unwrap_or(0) as usize, case["spare"][1].as_u64().unwrap_or(0) as usize), identical: case["identical"].as_bool().unwrap_or(false), ctor: case["ctor"].as_u64().unwrap_or(0) as u8 };
             let o = check_merge(ctx, &c);
             println!("replay merge {:?} outcome={}", c, o);
         }
